@@ -4,6 +4,8 @@
 
 #include "world.hpp"
 
+#include <map>
+
 namespace ys {
 namespace pol {
 
@@ -55,6 +57,23 @@ struct dfr : basic_policy<
 struct dfv : basic_policy<
                  dfv, sim_rtti_deferred, vptr_vector<dfv>, vectored_error<dfv>> {
 };
+
+// a family obtained with rebind / replace / remove, from a parent whose facets
+// carry explicit extra template arguments (C14: "policies obtained by rebind /
+// replace / remove")
+struct quiet_provider {
+    static void default_error_handler(const yorel::yomm2::error_type&) {
+    }
+};
+using ordered_vptr_map =
+    std::map<yorel::yomm2::type_id, const std::uintptr_t*>;
+struct mapx : basic_policy<
+                  mapx, sim_rtti, vptr_map<mapx, ordered_vptr_map>,
+                  vectored_error<mapx, quiet_provider>> {};
+struct mapy : mapx::rebind<mapy> {};
+struct relx : rel::rebind<relx>::replace<type_hash, checked_perfect_hash<relx>> {
+};
+struct vecx : ind::rebind<vecx>::remove<indirect_vptr>::remove<type_hash> {};
 
 // stock policies, real std_rtti on the K<c> tokens
 struct sdbg : debug::rebind<sdbg> {};
